@@ -190,6 +190,11 @@ impl<'a> ReMatcher<'a> {
     fn check_preconditions(&self, start: usize) -> bool {
         for precondition in &self.program.preconditions {
             if let Some(fixed_position) = precondition.fixed_position {
+                // the position is a sum of match lengths and may lie beyond
+                // the input (it may even have saturated): nothing is there
+                if fixed_position > self.search.len() {
+                    return false;
+                }
                 let match_ = precondition
                     .operation
                     .matches_iter(self, fixed_position)
